@@ -34,7 +34,7 @@ EXPECT_DEF = {'imports': [((0, 12), 'lib.pydjinni'), ((1, 20), 'lib.pydjinni')],
               'valid1': [((1, 18), 'a.pydjinni'), ((0, 0), None)],
               'deprecated_use': [((2, 18), 'a.pydjinni')]}
 # generic arguments: the answer must be about the ARGUMENT under the cursor (file and 0-based line of its declaration), not about the container
-EXPECT_DEF_AT = {'generic': [((2, 23), ['a.pydjinni', 1]), ((2, 18), None), ((2, 20), None)],
+EXPECT_DEF_AT = {'generic': [((2, 23), ['a.pydjinni', 0]), ((2, 18), None), ((2, 20), None)],   # the declaration starts at its doc comment (line 0)
                  'generic2': [((2, 23), ['a.pydjinni', 0]), ((2, 26), ['a.pydjinni', 1]), ((2, 18), None)]}
 EXPECT_HOVER = {'generic': [((2, 23), 'doc of foo'), ((2, 9), None)]}
 EXPECT_DIAGS = {'valid1': [], 'valid2': [], 'imports': [2], 'syntax': [1], 'unknown': [1], 'rule': [1], 'duplicate': [1], 'deprecated_use': [2],
